@@ -1089,9 +1089,13 @@ impl SvgElement {
     fn eval_pos_attr(&self, name: &str, value: &str, ctx: &impl ElementMap) -> Result<String> {
         if let Ok(attr_ss) = ScalarSpec::from_str(name) {
             if let (Some(el), remain) = split_relspec(value, ctx)? {
-                if let Ok(Some(bbox)) = ctx.get_element_bbox(el) {
-                    return self.pos_attr_helper(remain, &bbox, attr_ss);
-                }
+                // A target which is not ready yet (or has no bounding box) must not be
+                // skipped: the unresolved value would be dropped with the other
+                // positioning attributes, silently losing the element's position.
+                let bbox = ctx
+                    .get_element_bbox(el)?
+                    .ok_or_else(|| SvgdxError::MissingBoundingBox(el.to_string()))?;
+                return self.pos_attr_helper(remain, &bbox, attr_ss);
             }
         }
         Ok(value.to_owned())
